@@ -6,6 +6,7 @@ open PsVerif.Gen
 
 inductive UpErr where
   | activeSwaps
+  | queryFailed      -- the active-swap query itself failed (a record of the swaps bucket does not decode)
   deriving DecidableEq, Repr
 
 /-- `SwapService.HasActiveSwaps`: some persisted swap is not finished (`IsFinished` is generated) -/
@@ -17,5 +18,12 @@ def safeUpgrade (current : String) (stored : Option String) (states : List St) :
   if stored = some current then .ok stored
   else if hasActiveSwaps states then .error .activeSwaps
   else .ok (some current)
+
+/-- the same over a swaps bucket in which a record may be undecodable (`none`): `HasActiveSwaps` lists and decodes
+    every record, so one bad record makes the query fail — and then nothing may be upgraded -/
+def safeUpgradeQ (current : String) (stored : Option String) (records : List (Option St)) : Except UpErr (Option String) :=
+  if stored = some current then .ok stored
+  else if records.any Option.isNone then .error .queryFailed
+  else safeUpgrade current stored (records.filterMap id)
 
 end PsVerif.Model
